@@ -2,9 +2,9 @@
    Directives in force: those of ExtrOcamlBasic only (bool, option, unit, list, prod, sumbool,
    sumor to the OCaml built-ins).  N / positive / nat stay the extracted inductive types. *)
 From Coq Require Import ExtrOcamlBasic.
-From Lasso Require Import Base Arena Keys Rodeo Conc.
+From Lasso Require Import Base Arena Keys Ctors Rodeo Conc.
 Extraction Language OCaml.
-Separate Extraction Keys.summary Keys.micro_spur Keys.mini_spur Keys.spur Keys.large_spur Keys.serde_de Keys.try_from_usize
+Separate Extraction Ctors.ctor_args Keys.summary Keys.micro_spur Keys.mini_spur Keys.spur Keys.large_spur Keys.serde_de Keys.try_from_usize
   Conc.step Conc.step_legacy Conc.init Conc.run_sched_gen Conc.as_arena Conc.map_get Conc.strs_get Conc.blocked
   Rodeo.step Rodeo.run Rodeo.obj_pairs Rodeo.obj_strs Arena.read Arena.arena_okb
   Arena.vec_store_legacy Arena.lf_store_legacy Rodeo.de_rodeo_legacy Rodeo.de_threaded_gen
